@@ -1,6 +1,6 @@
 (* C17 — XFLATE random access is local. Model: XFlate/Reader.v logs every
    byte range it reads from the underlying ReadSeeker. *)
-From V Require Import Base.Prelude XFlate.Index XFlate.Reader XFlate.Thms.
+From V Require Import Base.Prelude XFlate.Index XFlate.Reader XFlate.Thms XFlate.Refine XFlate.Locality.
 
 (* one Seek touches at most one new range of the underlying stream, and that
    range is the compressed span of a single index record (the chunk holding
@@ -24,3 +24,35 @@ Print Assumptions refused_seek_reads_nothing.
 Theorem zero_read_reads_nothing : forall s, r_log (snd (read s 0)) = r_log s.
 Proof. intros s. rewrite read_zero. reflexivity. Qed.
 Print Assumptions zero_read_reads_nothing.
+
+(* ---- over all histories, on every honest stream (the hypothesis of C07's theorem) ---- *)
+
+(* a Seek reads at most the compressed extent of ONE record: the one whose raw range
+   holds the (clamped) target *)
+Theorem seek_reads_the_target_record : forall data T content, honest data T content ->
+  forall s pos0 k off wh, Cur data T content s pos0 k ->
+  r_log (snd (seek s off wh)) = r_log s \/
+  exists ri pos, (0 <= ri <= L T)%Z /\
+    (RawOffset (pv T ri) <= Z.min pos (endp T) <= RawOffset (cu T ri))%Z /\
+    fst (seek s off wh) = (pos, None) /\
+    r_log (snd (seek s off wh)) = r_log s ++ [extent T ri].
+Proof. exact seek_log. Qed.
+Print Assumptions seek_reads_the_target_record.
+
+(* a Read of n bytes at logical position lp reads only extents of records after the
+   current one that start strictly before lp + n (or the empty end-of-data extent):
+   the cost follows the chunks overlapping [lp, lp+n), not the size of the stream *)
+Theorem read_reads_only_overlapping_records : forall data T content, honest data T content ->
+  forall s n pos k, Cur data T content s pos k ->
+  exists extra,
+    r_log (snd (read s n)) = r_log s ++ extra /\
+    Forall (opened T k (Z.min pos (endp T)) n) extra.
+Proof. exact read_log. Qed.
+Print Assumptions read_reads_only_overlapping_records.
+
+(* whatever the history, everything read after opening is an extent of an index record *)
+Theorem every_access_is_a_record_extent : forall data T content, honest data T content ->
+  forall ops s st, Rel data T content s st ->
+  exists extra, r_log (snd (rrun s ops)) = r_log s ++ extra /\ Forall (is_extent T) extra.
+Proof. exact run_log. Qed.
+Print Assumptions every_access_is_a_record_extent.
